@@ -37,6 +37,9 @@ RULE = ("texts: (a) every ordered pair of textual binary operators of the engine
         "table symbol among them into its operator token. Factory histories: create() calls interleaved with "
         "insert_operator calls on ONE factory object (fixed + 30 % of the random sequences); every engine created on "
         "the way is checked, after the whole history ran, against the table of its creation time. "
+        "Every engine is also asked through its other parse routes - engine(text, options), engine.copy(options)(text), a "
+        "copy of a copy - and all routes must give the tree of engine(text) (60 texts for engines whose factory was "
+        "edited after their creation, 12 for the others). "
         "non-trivial = the text holds >= 2 operator tokens (binary/prefix/suffix/index) outside brackets of each "
         "other, i.e. precedence or associativity decides something; distinct = distinct (operator list, token list)")
 TRUSTED = ["Model/Pratt.v (precedence climbing with the yacc rank rule) stands in for ply's LALR(1) tables with "
@@ -390,11 +393,21 @@ class Eng:
             return ("atom", ("const", type(t.value).__name__, t.value))
         return ("op", self.name2sym.get(ty, t.value))
 
-    def tree(self, text):
-        """('ok', tree) | ('err',)  -- tree in python form; raises on anything else"""
+    def tree(self, text, route="call"):
+        """('ok', tree) | ('err',)  -- tree in python form; raises on anything else.
+        route: how the engine is asked - engine(text), engine(text, options), a copy, a copy of a copy"""
         from yaql.language import exceptions
         try:
-            e = self.engine(text).expression
+            if route == "call":
+                e = self.engine(text).expression
+            elif route == "call+options":
+                e = self.engine(text, options={"yaql.limitIterators": 1000}).expression
+            elif route == "copy":
+                e = self.engine.copy({"yaql.memoryQuota": 100000})(text).expression
+            elif route == "copy of copy":
+                e = self.engine.copy({"yaql.limitIterators": 7}).copy({"yaql.convertSetsToLists": True})(text).expression
+            else:
+                raise ValueError(route)
         except exceptions.YaqlGrammarException:
             return ("err",)
         return ("ok", self.conv(e))
@@ -890,6 +903,41 @@ def nontrivial(toks):
 
 
 _lexer_reported = set()
+ROUTES = ["call+options", "copy", "copy of copy"]
+_route_budget = {}
+_route_reported = set()
+
+
+def route_observation(eng, text, route):
+    try:
+        return eng.tree(text, route)
+    except KeyError as ex:              # a copy that follows another table produces nodes this engine's table lacks
+        return ("tree with an operator the engine's own table does not have", str(ex))
+    except Exception as ex:
+        return ("exception", "%s: %s" % (type(ex).__name__, ex))
+
+
+def check_routes(run, eng, text, obs):
+    """every way of asking ONE engine - engine(text), engine(text, options), engine.copy(options)(text), copies of
+    copies - must give the same tree: the one of the table the engine was created from.  Engines whose factory
+    was edited after their creation are asked this for 60 texts, every other engine for 12."""
+    key = id(eng)
+    left = _route_budget.setdefault(key, 60 if eng.view_index is not None else 12)
+    if left <= 0 or len(_route_reported) >= 6:
+        return
+    _route_budget[key] = left - 1
+    for route in ROUTES:
+        got = route_observation(eng, text, route)
+        run.count("route %s:%s" % (route, "same tree" if got == obs else "DIFFERENT"))
+        if got != obs and (key, route) not in _route_reported:
+            _route_reported.add((key, route))
+            _route_budget[key] = 0 if sum(1 for k, _ in _route_reported if k == key) >= 2 else _route_budget[key]
+            run.fail("violation", "one engine gives different trees through its parse routes: %s does not follow the table "
+                     "the engine was created from" % {"call+options": "engine(text, options)", "copy": "engine.copy(options)(text)",
+                                                      "copy of copy": "a copy of a copy"}[route],
+                     {"engine": eng.spec(), "text": str(text), "route": route, "observed": got,
+                      "required": obs, "how_to_read": "required = engine(text).expression, which C/O check against the "
+                      "table of the engine's creation time"})
 
 
 def check_text(run, eng, text, cases, meta, where):
@@ -905,6 +953,8 @@ def check_text(run, eng, text, cases, meta, where):
     if toks is None:
         run.cov["skipped"] += 1
         run.count("lexer rejects (not this property)")
+        if eng.view_index is not None:      # still: every route of the engine must reject it the same way
+            check_routes(run, eng, text, route_observation(eng, text, "call"))
         return None
     try:
         obs = eng.tree(text)
@@ -912,6 +962,7 @@ def check_text(run, eng, text, cases, meta, where):
         run.fail("violation", "operator node carries the wrong function name (alias handling)",
                  {"engine": eng.spec(), "text": text, "operator": e.args[0], "observed": e.args[1], "required": e.args[2]})
         return None
+    check_routes(run, eng, text, obs)
     nt = nontrivial(toks)
     run.case((eng.kind, tuple(eng.calls), tuple(map(repr, toks))), nontrivial=nt and obs[0] == "ok")
     run.count("%s:%s" % (where, "tree" if obs[0] == "ok" else "grammar error"))
@@ -1164,9 +1215,17 @@ def load_corpus():
 def texts_for(run, eng, idx):
     """(where, text) for one engine"""
     rng = run.rng
+    view = eng.view_index is not None
+    if view and eng.parent.built is not None and eng.built is not None:
+        # texts written for the table the factory holds LATER (they use operators this engine does not know):
+        # whatever they mean to this engine, they must mean the same through every route
+        new_syms = set(eng.parent.built.operators) - set(eng.built.operators)
+        foreign = [t for t in list(gen_focus(eng.parent, rng)) + list(gen_pairs(eng.parent, rng, 2, 1, sample=300))
+                   if any(p in new_syms for p in t.parts)]
+        for t in rng.sample(foreign, min(40, len(foreign))):
+            yield "text of the factory's later table", str(t)
     for t in gen_focus(eng, rng):
         yield "focus", t
-    view = eng.view_index is not None
     if idx < 2 and not view:                        # default, legacy
         for t in gen_pairs(eng, rng, 2, 1):
             yield "pairs", t
@@ -1308,6 +1367,15 @@ def replay(run, data):
     if "error" in d:
         e = eng_from_spec(d["engine"])
         return e.create_error is None and precedence_covers(e)
+    if "route" in d:
+        e = eng_from_spec(d["engine"])
+        if e.engine is None:
+            return False
+        toks = e.lex(d["text"])
+        main = route_observation(e, d["text"], "call")
+        if toks is not None and main[0] != "exception" and oracle_one(e, d["text"], toks, main):
+            return False
+        return all(route_observation(e, d["text"], r) == main for r in ROUTES)
     if "pieces" in d:
         e = eng_from_spec(d["engine"])
         if e.engine is None:
